@@ -137,4 +137,58 @@ def Registry.step (r : Registry) : RegEv → Registry
 
 def Registry.run (r : Registry) (evs : List RegEv) : Registry := evs.foldl Registry.step r
 
+-- callers parked inside the socket when it is closed ----------------------------------------------------------------
+
+/-- how a parking site (the load balancer's `wait_for_connection`) is treated by the pattern's `Stop` handler -/
+structure ParkCfg where
+  reaches : Bool       -- the Stop handler signals this site at all (`deactivate()` is called)
+  wakesAll : Bool      -- the signal sets the flag and releases every parked caller (`notify_waiters`); otherwise one
+                       -- caller per signal, or a stored permit when nobody is parked (`notify_one`)
+  checksFlag : Bool    -- a caller registers for the signal and looks at the flag BEFORE it parks
+deriving DecidableEq, Repr
+
+structure Park where
+  flag : Bool := false
+  parked : List Nat := []        -- callers waiting, oldest first
+  permit : Bool := false         -- a stored `notify_one` permit
+  returned : List Nat := []      -- callers that came back (with an error)
+deriving DecidableEq, Repr
+
+inductive ParkEv where
+  | arrive (t : Nat)             -- task `t` calls send() with no peer attached and SNDTIMEO -1
+  | stop                         -- the pattern processes `Command::Stop` (it does so twice per shutdown)
+deriving DecidableEq, Repr
+
+def Park.step (c : ParkCfg) (p : Park) : ParkEv → Park
+  | .arrive t =>
+    if c.checksFlag && p.flag then { p with returned := p.returned ++ [t] }
+    else if p.permit then
+      -- the stored permit ends the wait at once; the loop looks at the flag again
+      if p.flag then { p with permit := false, returned := p.returned ++ [t] }
+      else { p with permit := false, parked := p.parked ++ [t] }
+    else { p with parked := p.parked ++ [t] }
+  | .stop =>
+    if !c.reaches then p
+    else if c.wakesAll then { p with flag := true, parked := [], returned := p.returned ++ p.parked }
+    else match p.parked with
+      | [] => { p with flag := true, permit := true }
+      | t :: rest => { p with flag := true, parked := rest, returned := p.returned ++ [t] }
+
+def Park.run (c : ParkCfg) (p : Park) (evs : List ParkEv) : Park := evs.foldl (Park.step c) p
+
+/-- the socket types whose send() can wait in a load balancer for its first peer -/
+inductive BalancedTy where
+  | push | dealer | req
+deriving DecidableEq, Repr
+
+/-- the sites as the code treats them now (re-extracted on every run) -/
+def balancerSite : BalancedTy → ParkCfg
+  | .push => { reaches := Gen.pushStopDeactivatesBalancer == 1 && Gen.orchestratorDeactivateReachesBalancer == 1,
+               wakesAll := Gen.balancerDeactivateWakesAll == 1, checksFlag := Gen.balancerWaitChecksFlagAfterRegistering == 1 }
+  | .dealer => { reaches := Gen.dealerStopDeactivatesBalancer == 1 && Gen.orchestratorDeactivateReachesBalancer == 1,
+                 wakesAll := Gen.balancerDeactivateWakesAll == 1, checksFlag := Gen.balancerWaitChecksFlagAfterRegistering == 1 }
+  | .req => { reaches := Gen.reqStopDeactivatesBalancer == 1,
+              wakesAll := Gen.balancerDeactivateWakesAll == 1, checksFlag := Gen.balancerWaitChecksFlagAfterRegistering == 1 }
+
+
 end Rzmq
